@@ -26,8 +26,25 @@ def SameXL (N : EV → JV → Prop) : List EV → List JV → Prop
 def SameXM (N : EV → JV → Prop) : List (Bytes × EV) → List (Bytes × JV) → Prop
   | [], ms' => ms' = []
   | (k, v) :: t, ms' =>
-    if okV v && (k ≠ classKey) then ∃ y t', ms' = (k, y) :: t' ∧ SameX N v y ∧ SameXM N t t' else SameXM N t ms'
+    if okV v && !skipCls k v then ∃ y t', ms' = (k, y) :: t' ∧ SameX N v y ∧ SameXM N t t' else SameXM N t ms'
 end
+
+/-- with distinct keys, the `$type` member that gives the class name is the only `$type` member -/
+theorem classOf_unique : ∀ (ms : List (Bytes × EV)) (c : Bytes), classOf ms = some c → (ms.map (·.1)).Nodup →
+    ∀ q ∈ ms, q.1 = classKey → skipCls q.1 q.2 = true
+  | [], _, _, _ => by intro q hq; simp at hq
+  | (k, v) :: t, c, hc, hnd => by
+    simp only [List.map_cons, List.nodup_cons] at hnd
+    intro q hq hqk
+    simp only [classOf] at hc
+    rcases List.mem_cons.mp hq with rfl | hq
+    · simp only at hqk
+      simp only [hqk, if_true] at hc
+      simp [skipCls, hqk, hc]
+    · split at hc
+      · rename_i hk
+        exact absurd (List.mem_map.mpr ⟨q, hq, by rw [hqk, hk]⟩) hnd.1
+      · exact classOf_unique t c hc hnd.2 q hq hqk
 
 section
 variable (g : Nat → UInt64 → Bytes) (m : Mode)
@@ -59,7 +76,7 @@ theorem same_xdl : ∀ (v : EV), WFX v → KeysNodup v → SameX (NumJ g m) v (x
       exact ⟨R, by simp only [hR], hS⟩
     | some c =>
       obtain ⟨R, hR, hS⟩ := same_xdlM ms hw hk.2 hk.1 [(classKey, JV.str c)]
-        (by intro p hp; simp at hp; subst hp; exact Or.inl rfl)
+        (by intro p hp; simp at hp; subst hp; exact Or.inl ⟨rfl, classOf_unique ms c hc hk.1⟩)
       exact ⟨R, by simp only [hR], hS⟩
 theorem same_xdlL : ∀ (l : List EV), WFXL l → KeysNodupL l → SameXL (NumJ g m) l (xnormL g m l)
   | [], _, _ => by simp [SameXL, xnormL]
@@ -68,31 +85,31 @@ theorem same_xdlL : ∀ (l : List EV), WFXL l → KeysNodupL l → SameXL (NumJ 
     exact ⟨_, _, rfl, same_xdl x hw.1 hk.1, same_xdlL t hw.2 hk.2⟩
 /-- `acc` holds at most `$type` and members already written, whose keys differ from those still to come -/
 theorem same_xdlM : ∀ (ms : List (Bytes × EV)), WFXM ms → KeysNodupM ms → (ms.map (·.1)).Nodup →
-    ∀ (acc : List (Bytes × JV)), (∀ p ∈ acc, p.1 = classKey ∨ ∀ q ∈ ms, p.1 ≠ q.1) →
+    ∀ (acc : List (Bytes × JV)), (∀ p ∈ acc, (p.1 = classKey ∧ ∀ q ∈ ms, q.1 = classKey → skipCls q.1 q.2 = true) ∨ ∀ q ∈ ms, p.1 ≠ q.1) →
     ∃ R, xnormM g m ms acc = acc ++ R ∧ SameXM (NumJ g m) ms R
   | [], _, _, _, acc, _ => ⟨[], by simp [xnormM], by simp [SameXM]⟩
   | (k, v) :: t, hw, hk, hnd, acc, hdis => by
     simp only [List.map_cons, List.nodup_cons] at hnd
-    have hdis' : ∀ p ∈ acc, p.1 = classKey ∨ ∀ q ∈ t, p.1 ≠ q.1 := by
+    have hdis' : ∀ p ∈ acc, (p.1 = classKey ∧ ∀ q ∈ t, q.1 = classKey → skipCls q.1 q.2 = true) ∨ ∀ q ∈ t, p.1 ≠ q.1 := by
       intro p hp
       rcases hdis p hp with h | h
-      · exact Or.inl h
+      · exact Or.inl ⟨h.1, fun q hq => h.2 q (by simp [hq])⟩
       · exact Or.inr fun q hq => h q (by simp [hq])
-    cases hok : (okV v && decide (k ≠ classKey))
+    cases hok : (okV v && !skipCls k v)
     · obtain ⟨R, hR, hS⟩ := same_xdlM t hw.2 hk.2 hnd.2 acc hdis'
       exact ⟨R, by simp only [xnormM, hok, Bool.false_eq_true, if_false]; exact hR,
         by simp only [SameXM, hok, Bool.false_eq_true, if_false]; exact hS⟩
-    · have hkne : k ≠ classKey := by simp at hok; exact hok.2
-      have hwv : WFX v := by
-        rcases hw.1 with ⟨h1, _⟩ | ⟨_, h2⟩
-        · exact absurd h1 hkne
-        · exact h2
+    · have hns : skipCls k v = false := by simp at hok; exact hok.2
+      have hwv : WFX v := hw.1.2
       have hfresh : ∀ p ∈ acc, p.1 ≠ k := by
         intro p hp
         rcases hdis p hp with h | h
-        · rw [h]; exact Ne.symm hkne
+        · intro hpk
+          have := h.2 (k, v) (by simp) (by rw [← hpk]; exact h.1)
+          simp only at this
+          rw [hns] at this; exact absurd this (by simp)
         · exact h (k, v) (by simp)
-      have hdis2 : ∀ p ∈ acc ++ [(k, xnorm g m v)], p.1 = classKey ∨ ∀ q ∈ t, p.1 ≠ q.1 := by
+      have hdis2 : ∀ p ∈ acc ++ [(k, xnorm g m v)], (p.1 = classKey ∧ ∀ q ∈ t, q.1 = classKey → skipCls q.1 q.2 = true) ∨ ∀ q ∈ t, p.1 ≠ q.1 := by
         intro p hp
         rcases List.mem_append.mp hp with hp | hp
         · exact hdis' p hp
